@@ -13,6 +13,7 @@ JOBS = [
     ("pyx2v.py", "Gen/KernelPyx.v"),
     ("py2v_reject.py", "Gen/RejectSites.v"),
     ("consts2v.py", "Gen/ConstsGen.v"),
+    ("py2v_iter.py", "Gen/IterBook.v"),
 ]
 if __name__ == "__main__":
     repo, coq = sys.argv[1], sys.argv[2]
